@@ -45,6 +45,7 @@ type inject struct {
 	N       int
 	Errno   int
 	Persist bool
+	Argv0   string // invoke gxz through a symbolic link of this name (xzcat, unxz, lzma, ...)
 }
 
 func (j inject) String() string {
@@ -84,7 +85,18 @@ func runGxz(c *ev.Ctx, dir string, args []string, inj inject, countStdout bool, 
 			a = append(a, "-P")
 		}
 	}
-	a = append(a, "--", gxzBinary())
+	bin := gxzBinary()
+	if inj.Argv0 != "" {
+		// the program decides on its mode of operation by the name it is called by
+		ad := filepath.Join(c.WorkDir, "bin", "alias-"+filepath.Base(bin))
+		os.MkdirAll(ad, 0o755)
+		ln := filepath.Join(ad, inj.Argv0)
+		if _, err := os.Lstat(ln); err != nil {
+			os.Symlink(bin, ln)
+		}
+		bin = ln
+	}
+	a = append(a, "--", bin)
 	a = append(a, args...)
 	cmd := exec.Command(sysstepBin(c), a...)
 	cmd.Dir = dir
